@@ -6,6 +6,7 @@ One case = a generated block tree + a schedule of ADV / FLUSH 0|1 / BACKUP / OPE
 """
 import os
 
+from harness import common
 from harness.common import SuiteResult, rng_for, run_evdrv
 from harness.world import chaingen
 from harness.world.chaingen import Gen, be, hashx_of, NORMAL_SCRIPTS, UNSPENDABLE_SCRIPTS
@@ -335,6 +336,8 @@ def run(tier, seed):
     groups = collision_groups(seed, tier)
     n_cases = 60 if tier == 'quick' else 1500
     for i in range(n_cases):
+        if common.out_of_time():
+            break
         rng = rng_for(seed, 'index', i)
         # hand the collision groups to every 3rd case
         g = [list(x) for x in groups] if i % 3 == 0 else None
